@@ -108,11 +108,15 @@ _SEP = st.sampled_from([" ", " ", " ", "\n", "\t", "  ", "\n\n", "\n\t", " \n  "
 @st.composite
 def laid_out(draw, toks, style=None):
     n = len(toks)
-    style = style if style is not None else draw(st.integers(0, 3))
+    style = style if style is not None else draw(st.integers(0, 4))
     if style == 0:
         seps = [draw(st.sampled_from(["", "\n", "\n\n\t", "  "]))] + [" "] * (n - 1) + ["\n"]
     elif style == 1:
         seps = [draw(st.sampled_from(["", "\n"]))] + ["\n"] * (n - 1) + [""]
+    elif style == 4:
+        # CRLF text: every line break is \r\n
+        seps = [draw(st.sampled_from(["", "\r\n", "\r\n\t"]))] + [draw(st.sampled_from([" ", " ", "\r\n", "\r\n  ", "\t", "\r\n\r\n"]))
+                                                                for _ in range(n - 1)] + [draw(st.sampled_from(["", "\r\n"]))]
     else:
         seps = [draw(st.sampled_from(["", "\n", "\t", "\n \n"]))] + [draw(_SEP) for _ in range(n - 1)] + [draw(st.sampled_from(["", "\n"]))]
     r = M.layout(toks, seps)
